@@ -80,4 +80,40 @@ PROPS = {
         "trivial_tags": [r":bad-op"],
         "assumptions": ["the three cache.insert_all call sites insert exactly the validated record lists (read from the code; covered end-to-end by the resolver streams of C07)"],
     },
+    "C01": {
+        "modules": ["Resolved.Props.C01"],
+        "streams": [{"name": "resolve-local", "quick": 6000, "thorough": 120000},
+                    {"name": "resolve-universe", "quick": 800, "thorough": 20000}],
+        "trivial_tags": [r":bad-op"],
+        "assumptions": ["the cache clock is frozen during one resolution (virtual clock hook)",
+                        "D5: AA is claimed for replies whose whole chain stays in authoritative zones"],
+    },
+    "C10": {
+        "modules": ["Resolved.Props.C10"],
+        "streams": [{"name": "resolve-local", "quick": 6000, "thorough": 120000},
+                    {"name": "resolve-universe", "quick": 800, "thorough": 20000}],
+        "trivial_tags": [r":bad-op"],
+        "assumptions": ["D7: upstream servers list alias chains in chain order and answer with records of the asked type"],
+    },
+    "C07": {
+        "modules": ["Resolved.Props.C07", "Resolved.Props.C06"],
+        "streams": [{"name": "resolve-universe", "quick": 2400, "thorough": 60000}],
+        "trivial_tags": [r":bad-op", r"/x0$"],
+        "assumptions": ["D8: RRsets carry one TTL; answers compared up to TTL and order inside the final RRset",
+                        "with several nameservers per zone the referral host order comes from a HashSet: those cases are judged by the specification oracle only"],
+    },
+    "C08": {
+        "modules": ["Resolved.Props.C08"],
+        "streams": [{"name": "resolve-faults", "quick": 3000, "thorough": 80000},
+                    {"name": "resolve-universe", "quick": 600, "thorough": 10000}],
+        "trivial_tags": [r":bad-op", r"/x0$"],
+        "assumptions": ["tokio's timeout/sleep on the paused clock stand for the real timers; that a future is cancelled at an await point is tokio's contract"],
+    },
+    "C18": {
+        "modules": ["Resolved.Props.C18"],
+        "streams": [{"name": "resolve-universe", "quick": 2400, "thorough": 60000},
+                    {"name": "resolve-faults", "quick": 800, "thorough": 20000}],
+        "trivial_tags": [r":bad-op", r"/x0$"],
+        "assumptions": ["addresses are observed at the mock transport, which replaces the socket layer"],
+    },
 }
